@@ -9,8 +9,9 @@
 // step in which its effect happened (several primitives have no trace hook of their own).
 //
 // Trace decorations added here (vx.hpp is shared and not edited): every `M` line ends with `@<time>`, `notify_one` lines
-// carry `idx=<picked index in queue order>`, `park_timed` lines carry `j=<jitter drawn by SleepPreemptive>`, the coin of
-// SharedMutex::unlock is reported as `f E coin <v>`.
+// carry `idx=<picked index in queue order>`, `park_timed` lines carry `j=<jitter drawn by SleepPreemptive>`; any other
+// random draw of the library is reported as `f E coin <v>` (there is none any more: `SharedMutex::unlock` drew one
+// until 5d29c51 — the trace validator rejects such a line).
 //
 // Monitors (independent of the Lean model): holder compatibility at every acquisition, try/timed results against the
 // holder counters and the virtual clock, timed waits / sleeps not early, a cv waiter returns without timeout only after a
@@ -21,8 +22,6 @@
 #include <yaclib/fault/inject.hpp>
 
 #include <algorithm>
-#include <csetjmp>
-#include <csignal>
 #include <chrono>
 #include <sstream>
 #include <yaclib_std/chrono>
@@ -43,7 +42,7 @@ std::uint64_t Now() { return yaclib::fault::Scheduler::GetScheduler()->GetTimeNs
 std::string At() { return " @" + std::to_string(Now()); }
 
 struct Op {
-  std::string k;  // L T U F FU | LS TS US FS | W WF WP WPF SF N1 NA | S | J E | P G PQ C GQ GL
+  std::string k;  // L T U F FU | LS TS US FS | W WF WU WP WPF SF N1 NA | S | J E | P G PQ C GQ GL
   long a = 0;
 };
 
@@ -58,7 +57,7 @@ struct Scenario {
       for (std::size_t j = 0; j < progs[i].size(); ++j) {
         h += (j ? "," : "") + progs[i][j].k;
         if (progs[i][j].a != 0 || progs[i][j].k == "F" || progs[i][j].k == "FS" || progs[i][j].k == "FU" ||
-            progs[i][j].k == "S" || progs[i][j].k == "WF" || progs[i][j].k == "WPF" || progs[i][j].k == "J" ||
+            progs[i][j].k == "S" || progs[i][j].k == "WF" || progs[i][j].k == "WU" || progs[i][j].k == "WPF" || progs[i][j].k == "J" ||
             progs[i][j].k == "P" || progs[i][j].k == "PQ")
           h += std::to_string(progs[i][j].a);
       }
@@ -169,12 +168,8 @@ void InstallLocalHooks(vx::Ctx* ctx) {
       if (!ctx->trace.empty()) ctx->trace.back() += " j=" + std::to_string(r);
       return r;
     }
-    if (max == 2) {  // SharedMutex::unlock
-      int r = ctx->Choose('x', 2);
-      vx::Ev("coin " + std::to_string(r));
-      return r;
-    }
-    return 0;  // the built-in pick of PollRandomElementFromList on an empty list (D12): about to crash
+    vx::Ev("coin " + std::to_string(max));  // no other draw is expected
+    return 0;
   };
   h.on_sync = [](void* c, const void* obj, int op, int res) {
     auto* ctx = static_cast<vx::Ctx*>(c);
@@ -392,7 +387,7 @@ void ExecCvOp(Env& env, int i, const Op& op) {
     for (int j = 0; j < kMaxF; ++j)
       if (mon.in_op[j] == 'W') mon.got_notify[j] = true;
   };
-  auto one_wait = [&](bool timed, long d) -> bool {  // returns true if it ended by timeout
+  auto one_wait = [&](bool timed, long d, bool until = false) -> bool {  // returns true if it ended by timeout
     auto t0 = Now();
     Call(timed ? "wait_for " + std::to_string(d) : std::string("wait"));
     mon.holdX[i]--;
@@ -401,12 +396,7 @@ void ExecCvOp(Env& env, int i, const Op& op) {
     std::unique_lock<yaclib_std::mutex> lk{m, std::adopt_lock};
     bool timeout = false;
     if (timed) {
-      // the overload without predicate does not link (CVStatusFrom is declared constexpr in the header and defined in
-      // src/fault/condition_variable.cpp only; see notes/C18.md D11).  One wait through the predicate overload:
-      // the predicate is false once, so WaitImpl runs exactly once; 2 evaluations = timeout, 3 = notified.
-      int calls = 0;
-      cv.wait_for(lk, ns{d}, [&] { return calls++ > 0; });
-      timeout = calls == 2;
+      timeout = (until ? cv.wait_until(lk, Clock::now() + ns{d}) : cv.wait_for(lk, ns{d})) == std::cv_status::timeout;
     } else {
       cv.wait(lk);
     }
@@ -423,12 +413,12 @@ void ExecCvOp(Env& env, int i, const Op& op) {
     Ret(std::string(timed ? "wait_for " : "wait ") + (timeout ? "timeout" : "notified"));
     return timeout;
   };
-  if (k == "W" || k == "WF") {
+  if (k == "W" || k == "WF" || k == "WU") {
     if (mon.holdX[i] == 0) {
       vx::Ev("skip wait");
       return;
     }
-    one_wait(k == "WF", op.a);
+    one_wait(k != "W", op.a, k == "WU");
   } else if (k == "WP" || k == "WPF") {
     // while (!flag) wait: the canonical predicate loop, spelled out so that every wait is a separate op in the trace
     if (mon.holdX[i] == 0) {
@@ -472,7 +462,7 @@ void RunWith(const Scenario& sc, M* m, Env& env) {
         const std::string& k = op.k;
         if (k == "S" || k == "J" || k == "E" || k == "P" || k == "G" || k == "C" || k == "GQ" || k == "GL" || k == "PQ") {
           ExecCommon(env, fi, op);
-        } else if (k == "W" || k == "WF" || k == "WP" || k == "WPF" || k == "SF" || k == "N1" || k == "NA") {
+        } else if (k == "W" || k == "WF" || k == "WU" || k == "WP" || k == "WPF" || k == "SF" || k == "N1" || k == "NA") {
           ExecCvOp(env, fi, op);
         } else if constexpr (!std::is_same_v<M, void>) {
           ExecLockOp(*m, env, fi, op);
@@ -585,14 +575,14 @@ std::vector<Scenario> Scenarios(std::uint64_t seed, int random_count) {
   add("mutex", {"L,U", "L,U", "L,U"});
   add("mutex", {"T,U", "L,U", "T,U"});
   add("mutex", {"L,U,L,U", "T,U,L,U"});
-  // ---- TimedMutex (D6: single `if` after the wake-up; D8: deadline == now)
+  // ---- TimedMutex (regressions: D6 barging after the wake-up, fixed 32ae58e; D8 deadline == now, fixed 33a96a1)
   add("timed", {"L,U", "F50,U"});
   add("timed", {"L,U", "F50,U", "L,U"});
   add("timed", {"L,S30,U", "F20,U"});
   add("timed", {"L,U", "F0,U"});
   add("timed", {"F40,U", "F40,U", "T,U"});
   add("timed", {"L,U", "FU50,U", "T,U"});
-  // ---- RecursiveMutex / RecursiveTimedMutex (D4: unlock never notifies)
+  // ---- RecursiveMutex / RecursiveTimedMutex (regression: D4 unlock never notified, fixed 4d75ee5)
   add("rec", {"L,L,U,U", "L,U"});
   add("rec", {"L,T,U,U", "T,U"});
   add("rec", {"L,U", "L,U", "T,U"});
@@ -600,15 +590,15 @@ std::vector<Scenario> Scenarios(std::uint64_t seed, int random_count) {
   add("rect", {"L,U", "F30,U", "T,U"});
   add("rect", {"L,S100,U", "F20,F200,U,U"});
   add("rect", {"F0,U", "L,U"});
-  // ---- SharedMutex (D6, D7)
+  // ---- SharedMutex (regressions: D6, D7, fixed 5d29c51)
   add("shared", {"L,U", "LS,US"});
   add("shared", {"LS,US", "LS,US", "L,U"});
-  add("shared", {"L,U", "LS,J2,US", "LS,US"});  // D7: both readers park on the exclusive queue, unlock wakes one
+  add("shared", {"L,U", "LS,J2,US", "LS,US"});  // D7 regression: two parked readers, one writer unlock
   add("shared", {"LS,US", "L,U", "LS,US"});     // D6: reader barges between unlock_shared and the writer's wake-up
   add("shared", {"T,U", "TS,US", "L,U"});
   add("shared", {"LS,US", "TS,US", "T,U"});
   add("shared", {"L,U", "LS,US", "L,U"});  // D6: a writer barges between unlock and the reader's wake-up
-  // ---- SharedTimedMutex (D5)
+  // ---- SharedTimedMutex (regression: D5 exclusive timed acquisition registered as shared, fixed 37d0a59)
   add("sharedt", {"LS,US", "F50,U", "TS,US"});
   add("sharedt", {"L,U", "FS50,US", "F50,U"});
   add("sharedt", {"F50,U", "LS,US", "L,U"});
@@ -623,6 +613,8 @@ std::vector<Scenario> Scenarios(std::uint64_t seed, int random_count) {
   add("cv", {"L,WPF30,U", "S10,L,SF,N1,U"});
   add("cv", {"L,WF20,U", "L,WF20,U", "N1"});
   add("cv", {"L,WF0,U", "N1"});
+  add("cv", {"L,WU30,U", "L,N1,U"});
+  add("cv", {"L,WU0,U", "N1"});
   add("cv", {"L,WPF50,U", "L,T,U", "L,SF,NA,U"});
   // ---- thread / sleep
   add("thread", {"E,J1,E", "E,S20,E"});
@@ -634,8 +626,8 @@ std::vector<Scenario> Scenarios(std::uint64_t seed, int random_count) {
   add("tls", {"P1,C,GQ,E,GQ", "GQ,P2,E,GQ"});
   add("tls", {"P1,G", "P2,C,GQ,G", "G,GQ"});
   add("tls", {"GL,P1,GL", "GL,G"});
-  add("tls", {"PQ3,GQ,P1,C,GQ", "GQ,PQ2,GQ"});
-  add("tls", {"C,GQ,P1,C,C,GQ", "GQ"});  // `q = p` with equal values is a no-op  // D14, second half: a fiber that assigned q does not see its own `q = p`
+  add("tls", {"PQ3,GQ,P1,C,GQ", "GQ,PQ2,GQ"});  // D14 regression: own `q = p` visible over an own earlier assignment
+  add("tls", {"C,GQ,P1,C,C,GQ", "GQ"});  // `q = p` with equal values
   // ---- random balanced programs
   vx::SplitMix rng{seed * 0x9e3779b97f4a7c15ULL + 18};
   const char* prims[] = {"mutex", "timed", "rec", "rect", "shared", "sharedt", "cv"};
@@ -691,34 +683,16 @@ std::vector<Scenario> Scenarios(std::uint64_t seed, int random_count) {
 
 }  // namespace
 
-sigjmp_buf gCrashJmp;
-volatile int gCrashSig = 0;
-
-// the library crashed inside an execution (so far: Scheduler::RunLoop -> GetNext on an empty run queue, a null
-// dereference on the scheduler's own stack): abandon the execution like a deadlocked one and report it
-void OnCrash(int sig) {
-  gCrashSig = sig;
-  siglongjmp(gCrashJmp, 1);
-}
-
 int main(int argc, char** argv) {
   auto opt = vx::ParseOptions(argc, argv);
   int random_count = 12;
   bool stop_on_deadlock = true;
-  std::string header_extra;
   for (int i = 1; i < argc; ++i) {
     std::string a = argv[i];
     if (a == "--random-scenarios" && i + 1 < argc) random_count = std::atoi(argv[++i]);
     if (a == "--no-early-stop") stop_on_deadlock = false;
-    if (a == "--fixed") header_extra = " fixed=1";  // the library under test has the proposed repairs applied
   }
   vx::Explorer ex(opt);
-  {
-    struct sigaction sa {};
-    sa.sa_handler = OnCrash;
-    sa.sa_flags = SA_NODEFER;
-    sigaction(SIGSEGV, &sa, nullptr);
-  }
   InstallLocalHooks(&ex.ctx);
   yaclib::SetFaultSleepTime(kJitter);
   auto& ctx = ex.ctx;
@@ -729,6 +703,7 @@ int main(int argc, char** argv) {
     if (!opt.only.empty() && opt.only != header) continue;
     if (!seen_headers.insert(header).second) continue;
     ++ex.stats.scenarios;
+    ex.current_header = header;
     ctx.stack.clear();
     if (opt.has_replay) {
       ctx.random_mode = false;
@@ -741,14 +716,7 @@ int main(int argc, char** argv) {
     bool exhausted = false;
     std::set<std::string> kinds_here;
     while (true) {
-      bool done = false;
-      bool crashed = false;
-      if (sigsetjmp(gCrashJmp, 1) == 0) {
-        done = vx::RunOnce(ctx, [&] { RunScenario(sc); });
-      } else {
-        crashed = true;
-        yaclib::fault::Scheduler::Set(nullptr);
-      }
+      bool done = vx::RunOnce(ctx, [&] { RunScenario(sc); });  // a crash inside is reported by vx's crash handler
       ++n;
       ++ex.stats.executions;
       ex.stats.sum_preempts += ctx.preempts;
@@ -757,22 +725,17 @@ int main(int argc, char** argv) {
         ++ex.stats.nondeterministic;
         ctx.nondeterminism = false;
       }
-      if (crashed) {
-        ctx.trace.push_back("- E crash");
-      } else if (!done) {
+      if (!done) {
         ++ex.stats.deadlocks;
         ctx.trace.push_back("- E deadlock");
       }
-      auto [kind, bad] = crashed ? std::pair<std::string, std::string>{
-                                     "crash", "the library crashed with signal " + std::to_string(gCrashSig) +
-                                                " inside the fiber scheduler (run queue empty in GetNext)"}
-                                 : Verdict(sc, done);
+      auto [kind, bad] = Verdict(sc, done);
       auto h = vx::HashLines(ctx.trace) ^ std::hash<std::string>{}(header);
       if (ex.seen.insert(h).second) {
         ++ex.stats.distinct;
         ex.stats.trace_lines += ctx.trace.size();
         if (ex.out) {
-          std::fprintf(ex.out, "run %s%s\n", header.c_str(), header_extra.c_str());
+          std::fprintf(ex.out, "run %s\n", header.c_str());
           for (auto& l : ctx.trace) std::fprintf(ex.out, "%s\n", l.c_str());
           std::fprintf(ex.out, "end\n");
         }
